@@ -14,6 +14,9 @@ bodies:          vlib/c18_bodies.py — derived-attribute getters and WHERE-rule
                  (`m_c18 spec`, lean/StepModel/GenPyBody.lean `Spec.Body.eval`) on instances with values of the declared types;
                  correspondence: the tree Python's own parser reads in each emitted right-hand side (harness/h_pybody.py)
                  and every value = `m_c18 model` (`Body.read`, `Body.pyEval`)
+functions:       vlib/c18_bodies.run_functions — translated FUNCTIONs (vlib/func_gen_py18.py) called through harness/h_pyfunc.py,
+                 every result = the reference interpreter's (ISO 10303-11 clause 13); the iteration space of REPEAT is also
+                 compared with `m_c18 model|spec` (`range` lines: `Body.pyRange`/`stopWritten`, `Spec.Body.repeatValues`)
 """
 import json, os, re, subprocess, sys, time
 from concurrent.futures import ThreadPoolExecutor
@@ -582,6 +585,8 @@ def run(ctx):
         "CPython's compiler and import system (\"Python can compile and import the module\" is observed, not proved)",
         "hand-written model lean/StepModel/GenPyBody.lean of ATTRIBUTE_INITIALIZER*__out / WHEREPrint composed with Python's reading of the text "
         "(tied by Python's ast on every generated expression), harness/h_pybody.py, vlib/expr_gen_py18.py, vlib/c18_bodies.py",
+        "vlib/func_gen_py18.py (generator and reference interpreter for FUNCTIONs: the oracle for translated statements, cross-checked "
+        "against Spec.Body.repeatValues on the iteration space only), harness/h_pyfunc.py",
     ]
     ctx.assumptions += ["single-schema inputs; attribute names unique per schema; identifiers lower case (EXPRESS folds case)",
                         "bodies: derived-attribute getters and WHERE-rule methods over integer literals, TRUE/FALSE, attribute references, NOT, unary minus, "
@@ -620,6 +625,7 @@ def run(ctx):
         multi.insert(0, (open(hang).read(), ["s_bebe", "s_ne"]))
     run_multi(ctx, run_.b, multi)
     CB.run_bodies(ctx, run_.b, ctx.model_exe("m_c18"))
+    CB.run_functions(ctx, run_.b, exe=ctx.model_exe("m_c18"))
     ctx.sample({"schema": all_s[-1].express(), "introspection": all_r[-1][2]["line"][:600]})
     ctx.cov["rule"] = ("generated single-schema EXPRESS files: 1-9 entities with single/multiple/diamond supertypes, explicit/optional/"
                        "derived/inverse attributes typed by simple, defined, entity and aggregate types; defined types of every body kind "
@@ -627,7 +633,10 @@ def run(ctx):
                        "builtins; supertype orders Python accepts in all batches but `random-any-supertype-order`; plus fixed shapes (diamond, shallow-before-deep, every keyword as entity/attribute/enum item/type name); "
                        "bodies: one entity with 1-3 INTEGER and 0-2 BOOLEAN attributes (20% keyword names), 1-3 derived attributes and 0-2 WHERE rules "
                        "(labels partly keywords / missing) over random well-typed expressions of depth 1-4, 6 random value assignments each, plus fixed "
-                       "bodies (right-nested same operators, keyword attributes and labels, DIV, string / BINARY / REAL literals)")
+                       "bodies (right-nested same operators, keyword attributes and labels, DIV, string / BINARY / REAL literals, built-in constants); "
+                       "functions: 1-2 INTEGER parameters, 1-3 locals (half with a LOCAL initial value, 15% keyword names), 1-4 statements of depth <= 3 "
+                       "(assignment, IF, REPEAT with increment +/-1 +/-2 and optional WHILE / UNTIL, counted WHILE / UNTIL loops, SKIP / ESCAPE under IF, CASE, "
+                       "BEGIN-END), RETURN; 6 argument tuples each; plus one fixed function per translation rule and six iteration-space probes")
 
 
 def replay(ctx, path):
@@ -636,6 +645,9 @@ def replay(ctx, path):
     if "body" in r:
         ctx.lean("StepModel.Props.C18", exes=["m_c18"], extractors=EXTRACTORS)
         CB.run_bodies(ctx, Runner(ctx).b, ctx.model_exe("m_c18"), only=CB.from_obj(r["body"]), only_envs=r.get("envs"))
+        return
+    if "function" in r:
+        CB.run_functions(ctx, ctx.build("plain"), only=CB.func_from_obj(r["function"]), only_args=r.get("args"))
         return
     s = from_obj(r["model"])
     ctx.lean("StepModel.Props.C18", exes=["m_c18"], extractors=EXTRACTORS)
